@@ -1,4 +1,4 @@
-package main
+package c06lib
 
 import (
 	"example.com/scion-time/core/server"
@@ -48,6 +48,12 @@ func flood(variant, nextra, salt int64) {
 		return mi, small[mi].rxt
 	}
 	var ex []extra
+	var exReplies, exAdm []string
+	// candidates for the least recently active position: the window of base clients and the newcomers so far
+	present := map[int64]bool{}
+	for i := int64(0); i < window && i < capN; i++ {
+		present[i] = true
+	}
 	for j := int64(0); j < nextra; j++ {
 		cid := capN + j
 		var rxt int64
@@ -62,12 +68,43 @@ func flood(variant, nextra, salt int64) {
 		default: // just older than the least recently active client
 			rxt = minT - 1
 		}
-		rep := basic(cid, rxt)
+		// the newcomer's request names as origin the receive stamp on record for ANOTHER client (a base
+		// client of the window or an earlier newcomer), receive and transmit field differ: nothing is
+		// on record for the newcomer itself, the reply must be basic
+		var org uint64
+		switch j % 3 {
+		case 0:
+			org = t64num(ntp.Time64FromTime(tm(t0 + (j%window)*step)))
+		case 1:
+			if len(ex) > 0 {
+				org = ex[r.Intn(len(ex))].rx
+			}
+		}
+		q := op{kind: 0, cid: cid, org: org, rx: r.U64(), tx: r.U64(), rxt: rxt, now: now}
+		if j%7 == 3 {
+			q.tx = q.rx
+		}
+		rep := doHandle(q)
+		exReplies = append(exReplies, lib.L(lib.I(cid), lib.U(q.org), lib.U(q.rx), lib.U(q.tx), lib.I(q.rxt), lib.I(q.now),
+			lib.U(rep.org), lib.U(rep.rx), lib.U(rep.tx), lib.U(rep.ref), lib.I(rep.rxt), lib.I(rep.txt)))
 		if rxt >= minT {
 			small[mi] = ent{cid, rxt}
 		}
 		a, b := server.VerifTSSLen()
 		ex = append(ex, extra{cid, rxt, a, b, rep.rx, rep.ref})
+		// what this newcomer did to the store: did it get state, and who lost it (cheap per-client reads)
+		_, admitted := clientItem(cid)
+		victim := int64(-1)
+		for c := range present {
+			if _, ok := clientItem(c); !ok {
+				victim = c
+				delete(present, c)
+			}
+		}
+		if admitted {
+			present[cid] = true
+		}
+		exAdm = append(exAdm, lib.L(lib.Bool(admitted), lib.I(victim)))
 	}
 	snap := server.VerifSnapshotTSS()
 	have := map[int64]server.VerifTSSItem{}
@@ -95,6 +132,50 @@ func flood(variant, nextra, salt int64) {
 			}
 			exState = append(exState, lib.L(lib.I(e.cid), lib.L(lib.U(e.rx), lib.U(e.ref)), lib.L(es...)))
 		}
+	}
+	// probes: requests with receive != transmit field that name an origin, from clients with and
+	// without state, each with the client's real item before and after
+	var probes []string
+	probe := func(cid int64, org uint64, rxt int64) {
+		rec, _, _, _, _, _ := recHandle(op{kind: 0, cid: cid, org: org, rx: r.U64(), tx: r.U64(), rxt: rxt, now: now})
+		probes = append(probes, rec)
+	}
+	newest := t0 + (capN+nextra+10)*step
+	for i, e := range ex {
+		if it, ok := have[e.cid]; ok && len(it.Entries) > 0 {
+			// a newcomer that got state asks interleaved with its own exchange (no transmit stamp was reported: the software one is served)
+			newest += step
+			probe(e.cid, t64num(it.Entries[0].Rxt), newest)
+			if i%2 == 0 { // and once more, now naming the exchange that the first probe replaced
+				newest += step
+				probe(e.cid, t64num(it.Entries[0].Rxt), newest)
+			}
+		} else {
+			// a newcomer served without state names the receive stamp of its reply: nothing is on record
+			_, hq, _ := server.VerifTSSQueueHead()
+			old := nsOf64(hq) - int64(1+i)
+			probe(e.cid, e.rx, old)
+		}
+	}
+	for i := int64(0); i < window && i < capN; i++ {
+		own := t64num(ntp.Time64FromTime(tm(t0 + i*step)))
+		if _, ok := have[i]; ok {
+			newest += step
+			if i%3 == 0 {
+				probe(i, t64num(ntp.Time64FromTime(tm(t0+(i+1)*step))), newest) // another client's stamp
+			} else {
+				probe(i, own, newest)
+			}
+		} else {
+			// a base client that lost its state comes back naming its old exchange
+			_, hq, _ := server.VerifTSSQueueHead()
+			probe(i, own, nsOf64(hq)-1000-i)
+		}
+	}
+	for k := int64(0); k < 6; k++ { // far from the minimum: recent base clients
+		cid := capN - 1 - k*977
+		newest += step
+		probe(cid, t64num(ntp.Time64FromTime(tm(t0+cid*step))), newest)
 	}
 	// structural observations on the real queue
 	heapViol, qidxViol, qvalViol := 0, 0, 0
@@ -136,7 +217,8 @@ func flood(variant, nextra, salt int64) {
 			lib.L(lib.I(int64(li)), lib.I(int64(lq))),
 			lib.L(exs...), lib.L(lens...), lib.L(baseSurv...), lib.L(extraState...),
 			lib.L(lib.I(int64(len(snap.Items))), lib.I(int64(len(snap.Queue))), lib.I(int64(heapViol)), lib.I(int64(qidxViol)), lib.I(int64(qvalViol)), lib.U(q0)),
-			baseInputs(t0, step, window, capN), lib.L(exState...)))
+			baseInputs(t0, step, window, capN),
+			lib.L(lib.L(exState...), lib.L(exReplies...), lib.L(probes...), lib.L(exAdm...))))
 	server.VerifResetTSS()
 }
 
